@@ -287,8 +287,9 @@ func (e *Engine) RunEntry(cfg *EntryCfg, deadline time.Time) (*EntryResult, erro
 					res.EndMsgs["unknown-assert"] = append(res.EndMsgs["unknown-assert"], a.Label+" "+a.Where)
 				}
 				if a.Verdict == "VIOLATED" {
-					violSeen[a.Label]++
-					if violSeen[a.Label] <= 8 {
+					vk := a.Label + "|" + strings.Join(a.Notes, ",")
+					violSeen[vk]++
+					if violSeen[vk] <= 3 && len(res.Violations) < 300 {
 						res.Violations = append(res.Violations, &Violation{Entry: cfg.Func, Label: a.Label, Msg: a.Where,
 							Decisions: pr.Decisions, Model: a.Model, Notes: a.Notes, Events: pr.Events, Where: a.Where, Params: cfg.Params})
 					}
